@@ -17,7 +17,7 @@ abbrev Ref := Nat
 structure HObj where
   obj : Obj          -- kind / status / colour (content ignored: see `content`)
   content : Option Ref
-deriving Inhabited
+deriving Inhabited, DecidableEq
 
 /-- the heap: typed maps from references to node contents, the allocation pointer, the write log -/
 structure Heap where
@@ -307,5 +307,44 @@ def hFromVisibility (hp : Heap) (s : HState) (a : Area) (m : Mask) : HState × H
   let ps := (List.range a.height).flatMap fun (i : Nat) => (List.range a.width).map fun (j : Nat) =>
     (⟨(i : Int), (j : Int)⟩ : Pos)
   (o, ag.2.hideCells o m ps)
+
+/-- the empty heap -/
+def Heap.empty : Heap := ⟨0, fun _ => [], fun _ => [], fun _ => default, fun _ => default, fun _ => (0, 0), []⟩
+
+/-! ### naming nodes (for the identity-level correspondence with the code) -/
+
+inductive NodeKind | outer | row | obj | tf | agent
+deriving DecidableEq
+
+/-- an object and its content chain: `(ref, name)`, `(content, name.1)`, … -/
+def Heap.objChain (hp : Heap) : Nat → Ref → String → List (Ref × String × NodeKind)
+  | 0, r, nm => [(r, nm, .obj)]
+  | fuel + 1, r, nm =>
+    (r, nm, .obj) :: match (hp.objOf r).content with
+      | some c => hp.objChain fuel c (nm ++ ".1")
+      | none => []
+
+/-- every node of `s` with its name: `o`, `r<i>`, `c<i>,<j>` (`.1` per box level), `a`, `t`, `h` -/
+def Heap.nodeNames (hp : Heap) (s : HState) : List (Ref × String × NodeKind) :=
+  let rows := hp.rowsOf s.outer
+  let rowNodes := rows.zipIdx.map fun (r, i) => (r, s!"r{i}", NodeKind.row)
+  let cellNodes := rows.zipIdx.flatMap fun (r, i) =>
+    (hp.cellsOf r).zipIdx.flatMap fun (c, j) => hp.objChain boxFuel c s!"c{i},{j}"
+  let ag := hp.agentOf s.agent
+  [(s.outer, "o", .outer)] ++ rowNodes ++ cellNodes ++ [(s.agent, "a", .agent), (ag.1, "t", .tf)]
+    ++ hp.objChain boxFuel ag.2 "h"
+
+/-- has the content of node `r` changed between two heaps? -/
+def nodeChanged (h h' : Heap) (r : Ref) : NodeKind → Bool
+  | .outer => h.rowsOf r != h'.rowsOf r
+  | .row => h.cellsOf r != h'.cellsOf r
+  | .obj => decide (h.objOf r ≠ h'.objOf r)
+  | .tf => decide (h.tfOf r ≠ h'.tfOf r)
+  | .agent => h.agentOf r != h'.agentOf r
+
+def nameOf (names : List (Ref × String × NodeKind)) (r : Ref) : String :=
+  match names.find? (fun e => e.1 == r) with
+  | some e => e.2.1
+  | none => "n"
 
 end GV
